@@ -263,4 +263,20 @@ PROPS = {
         trusted_base=[],
         technique="bounded run-time stand-in (generator with ground-truth line numbers) - no contract discharged yet",
     ),
+    "C03": dict(
+        level="other",
+        contracts=["contracts.sections"],
+        harness=True,
+        explanation=(
+            "PROVED (pyvc, relative to the docutils node model): update_section_level_state requires the new section to be "
+            "parentless and not one of the open sections (single parent / occurs once at that call site) and attaches it to "
+            "a value of the open-level map - by the map invariant a document or a section - so sections occur only directly "
+            "under the document or another section, for every heading sequence.  The other clauses of C03 (title first, "
+            "transitions, unique ids, refid existence, table shape, footnote labels) are not yet under contract and are "
+            "BOUNDED: an independent well-formedness checker over the doctree after the standard transforms for a footnote/"
+            "target/reference/table/transition vocabulary x configurations, a 101-column table and generated nested documents."
+        ),
+        assumptions=ENC,
+        trusted_base=["docutils node model (contracts/assumed_docutils.py)", "docutils transforms (ids, footnote numbering)"],
+    ),
 }
